@@ -171,6 +171,9 @@ pub fn rule_pool() -> Vec<RuleSpec> {
         // the right side names a slot that the left side does not have: the class is united with a renamed copy of
         // itself and loses the slot IN PLACE (no new class, no merge, no new node)
         r("mul-zero-rename", "(mul (var $y) 0)", "(mul (var $z) 0)"),
+        // two DIFFERENT pattern slots, one bound and one free, on variables: must not match a term that uses one slot twice
+        r("let-const-var", "(let $x (var $y) ?t)", "(var $y)"),
+        r("sum-var-factor", "(sum $x (mul (var $x) (var $y)))", "(mul (var $y) (sum $x (var $x)))"),
         // a substitution inside a substitution: chained brackets, and a bracket in the argument of a bracket
         r("let-let-chain", "(let $x (let $y ?b ?s) ?t)", "?b[(var $y) := ?s][(var $x) := ?t]"),
         r("let-let-arg", "(let $x ?b (let $z ?s ?t))", "?b[(var $x) := ?s[(var $z) := ?t]]"),
@@ -728,6 +731,9 @@ pub fn special_terms() -> Vec<T> {
         // commutativity rule then inserts a new parent of it, and let-subst walks through that parent's syntactic term
         tlet(100, node2("add", tvar(100), node2("mul", tvar(0), tnum("0"))), tvar(1)),
         tlet(100, node2("mul", node2("mul", tvar(0), tnum("0")), tvar(100)), tvar(1)),
+        // sum x. x * x   and   sum x. x * y
+        tsum(100, node2("mul", tvar(100), tvar(100))),
+        tsum(100, node2("mul", tvar(100), tvar(0))),
         // let x = (let z = y in z + 1) in x * x: a let in the argument of a let (nested substitution brackets)
         tlet(100, node2("mul", tvar(100), tvar(100)), tlet(101, node2("add", tvar(101), tnum("1")), tvar(0))),
     ]
